@@ -1435,6 +1435,84 @@ pub fn case(thorough: bool) -> BoxedStrategy<Case> {
         .boxed()
 }
 
+/// Byte-level decoding of a case for the libFuzzer target (same domain as `case`).
+pub fn decode(data: &[u8]) -> arbitrary::Result<Case> {
+    use arbitrary::Unstructured;
+    let mut u = Unstructured::new(data);
+    fn tmo(u: &mut Unstructured) -> arbitrary::Result<Tmo> {
+        Ok(match u.int_in_range(0..=8u8)? {
+            0..=2 => Tmo::None,
+            3 | 4 => Tmo::Zero,
+            5 => Tmo::Ms(10),
+            6 => Tmo::Ms(20),
+            7 => Tmo::Ms(30),
+            _ => Tmo::Ms(50),
+        })
+    }
+    fn t3(u: &mut Unstructured, runtime: bool) -> arbitrary::Result<T3> {
+        let wait = tmo(u)?;
+        let mut create = tmo(u)?;
+        let mut recycle = tmo(u)?;
+        if !runtime {
+            if create == Tmo::Zero {
+                create = Tmo::None;
+            }
+            if recycle == Tmo::Zero {
+                recycle = Tmo::None;
+            }
+        }
+        Ok(T3 { wait, create, recycle })
+    }
+    fn outv(u: &mut Unstructured) -> arbitrary::Result<Vec<Out>> {
+        let n = u.int_in_range(0..=7u8)?;
+        let mut v = vec![];
+        for _ in 0..n {
+            v.push(match u.int_in_range(0..=9u8)? {
+                0..=4 => Out::Ok,
+                5 => Out::Err,
+                6 | 7 => Out::Gate(true),
+                8 => Out::Gate(false),
+                _ => Out::Never,
+            });
+        }
+        Ok(v)
+    }
+    let flags: u8 = u.arbitrary()?;
+    let unmanaged = flags & 1 != 0;
+    let runtime = flags & 6 != 0;
+    let max_size = 1 + (flags >> 3) % 3;
+    let pool_t = if flags & 0x40 != 0 {
+        t3(&mut u, runtime)?
+    } else {
+        T3 { wait: Tmo::None, create: Tmo::None, recycle: Tmo::None }
+    };
+    let create = outv(&mut u)?;
+    let recycle = outv(&mut u)?;
+    const ADV: [u16; 13] = [1, 5, 9, 10, 11, 19, 20, 21, 30, 49, 50, 51, 100];
+    let mut steps = vec![];
+    while !u.is_empty() && steps.len() < 40 {
+        let s = match u.int_in_range(0..=19u8)? {
+            0..=2 => Step::Get { per_call: Some(t3(&mut u, runtime)?) },
+            3..=5 => Step::Get { per_call: None },
+            6..=11 => Step::Advance { ms: ADV[u.int_in_range(0..=12usize)?] },
+            12..=14 => {
+                let b: u8 = u.arbitrary()?;
+                Step::OpenGate { i: b, lazy: u.int_in_range(0..=9u8)? < 3 }
+            }
+            15..=18 => {
+                let b: u8 = u.arbitrary()?;
+                Step::Return { h: b, lazy: u.int_in_range(0..=9u8)? < 3 }
+            }
+            _ => Step::Close,
+        };
+        steps.push(s);
+    }
+    if steps.is_empty() {
+        return Err(arbitrary::Error::NotEnoughData);
+    }
+    Ok(Case { unmanaged, runtime, max_size, pool_t, create, recycle, steps })
+}
+
 pub struct Tsim;
 
 impl Engine for Tsim {
